@@ -18,7 +18,8 @@ import vlib
 from vlib import Report, prelude, build_driver, run_sharded, log
 
 PID = "C19"
-WRAP = ["-Wl,--wrap=malloc,--wrap=calloc,--wrap=realloc,--wrap=strdup", "-rdynamic"]
+WRAP = ["-Wl,--wrap=malloc,--wrap=calloc,--wrap=realloc,--wrap=strdup,--wrap=carquet_arena_alloc,--wrap=carquet_arena_alloc_aligned,"
+        "--wrap=carquet_arena_calloc,--wrap=carquet_arena_strdup,--wrap=carquet_arena_strndup,--wrap=carquet_arena_memdup", "-rdynamic"]
 CODECS = {0: "uncompressed", 1: "snappy", 2: "gzip", 5: "lz4", 6: "zstd"}
 HELPER_FILES = ("core/arena.c", "core/buffer.c", "thrift/thrift_encode.c")
 
@@ -51,6 +52,22 @@ def scenarios(tier):
             sc.append(f"batch {d} {codec} {small} 2 2 12 {mode}")
     sc.append(f"read {d} 0 iLdiLdiLdiLd 20 1 3 fread")
     sc.append(f"batch {d} 1 iLdiLdiLdiLd 20 1 3 mmap")
+    return sc
+
+
+def growth_scenarios(tier):
+    """shapes whose metadata crosses an arena block boundary at different places: only the requests
+    that GROW an arena (arena_new_block reached from carquet_arena_alloc_aligned) are failed, so that
+    the many arena call sites of parquet_types.c / file_writer.c / file_reader.c are each reached"""
+    d = tmpdir()
+    sc = []
+    shapes = [("iLdiLdiLdiLd", n) for n in range(16, 31)] + [("iLdfiLdfiL", n) for n in range(19, 34)] + [("BBBBBBiL", n) for n in range(24, 40)]
+    if tier == "quick":
+        shapes = shapes[::2]
+    for types, nrg in shapes:
+        sc.append(f"write {d} 0 {types} {nrg} 1 2 abort")
+        sc.append(f"read {d} 0 {types} {nrg} 1 2 fread")
+        sc.append(f"read {d} 0 {types} {nrg} 1 2 mmap")
     return sc
 
 
@@ -109,12 +126,15 @@ class Sites:
         the helper the request went through (malloc, arena, buffer, thrift encoder)"""
         via = "malloc"
         for fn, loc in frames:
+            if fn.startswith("__wrap_carquet_arena"):
+                via = "arena"
             if "/src/" not in loc:
                 continue
             rel = loc.split("/src/", 1)[1]
             f, _, line = rel.partition(":")
             if f in HELPER_FILES:
-                via = {"core/arena.c": "arena", "core/buffer.c": "buffer", "thrift/thrift_encode.c": "thrift"}[f] if via in ("malloc", "buffer") or f != "core/buffer.c" else via
+                if via == "malloc" or (via == "buffer" and f == "thrift/thrift_encode.c"):
+                    via = {"core/arena.c": "arena", "core/buffer.c": "buffer", "thrift/thrift_encode.c": "thrift"}[f]
                 continue
             return f, fn, line, via
         return "?", "?", "0", via
@@ -122,6 +142,8 @@ class Sites:
 
 def run_all(rep, tier, rng, drv):
     scs = scenarios(tier)
+    growth = growth_scenarios(tier)
+    scs = scs + growth
     cout, probs = run_sharded(drv, ["count " + s for s in scs], env=san_env(), timeout=1200)
     for pr in probs:
         rep.tie_broken(f"counting run died (rc={pr[1]}): {pr[2][-400:]}", pr[3])
@@ -138,7 +160,11 @@ def run_all(rep, tier, rng, drv):
         sites.resolve({a for c in chains for a in c.split("/") if len(a) <= 8})
         base[s] = (kv, chains)
         ks = list(range(1, K + 1))
-        if K > 700 and tier == "quick":
+        if s in growth:
+            ks = [k for k, c in enumerate(chains, 1)
+                  if any(fn == "arena_new_block" for fn, _ in sites.chain(c)) and
+                  not any(fn == "carquet_arena_init_size" for fn, _ in sites.chain(c))]
+        elif K > 700 and tier == "quick":
             # big scenario: every distinct call site at its first, a middle and its last occurrence, plus a random sample
             by_site = {}
             for k, c in enumerate(chains, 1):
@@ -228,6 +254,74 @@ def evaluate(rep, scs, base, sites, lines, owner, out, model=None):
     return per_site, nrec
 
 
+def site_table():
+    """the translator's table for the tree under test: (file, function) -> list of classes"""
+    import importlib.util
+    f = vlib.VERIF / "tools" / "gen.d" / "alloc_sites.py"
+    spec = importlib.util.spec_from_file_location("alloc_sites", f)
+    mod = importlib.util.module_from_spec(spec)
+    spec.loader.exec_module(mod)
+    tab = {}
+    for s in mod.scan(vlib.REPO):
+        tab.setdefault((s["file"], s["func"]), []).append(s)
+    return tab
+
+
+def make_site_tie(rep, tab):
+    """model tie at site level: SiteModel says a scenario through sites that are all Checked /
+    Propagated is clean; the translator says which sites are.  A function whose rows are all OK but
+    where a failing request was observed to crash / leak / report success with another effect means
+    the table (or the model's reading of 'checked') is wrong."""
+    seen = {}
+
+    def tie(rep_, site, via, verdict, case):
+        f, _, fn = site.partition(":")
+        fn = re.sub(r"\._omp_fn\.\d+$|\.part\.\d+$|\.constprop\.\d+$|\.isra\.\d+$", "", fn)
+        rows = tab.get((f, fn))
+        st = seen.setdefault((f, fn), {"rows": len(rows or []), "bad_rows": [r for r in (rows or []) if r["cls"] in ("Ignored", "Unchecked")], "bad_obs": 0, "obs": 0})
+        st["obs"] += 1
+        bad = verdict in ("crash", "leak", "ok-wrong-effect")
+        if bad:
+            st["bad_obs"] += 1
+            if rows is not None and not st["bad_rows"] and st["bad_obs"] == 1:
+                rep_.tie_broken(f"site table: every allocation result in {f}:{fn} is classified checked/propagated, but a failing "
+                                f"request there was observed as '{verdict}'", case["case"], key=f"alloc:{f}:{fn}")
+    return tie, seen
+
+
+def check_models(rep, tier, rng, drv, runner):
+    """BufferModel / ArenaModel against the real buffer.c / arena.c with request k denied"""
+    lines = []
+    n = 900 if tier == "thorough" else 300
+    for i in range(n):
+        cnt = rng.randrange(1, 7)
+        sizes = [rng.choice([0, 1, 3, 100, 4095, 4096, 4097, 5000, 8192, 8193, 20000, rng.randrange(1, 70000)]) for _ in range(cnt)]
+        lines.append(f"mbuf {rng.randrange(0, cnt + 1)} {','.join(map(str, sizes))}")
+    for i in range(n):
+        cnt = rng.randrange(1, 9)
+        reqs = [(rng.choice([0, 1, 7, 8, 16, 100, 4000, 30000, 65528, 65536, 65537, 70000, 140000, rng.randrange(1, 200000)]),
+                 rng.choice([1, 1, 8, 16, 16, 4, 2, 0])) for _ in range(cnt)]
+        lines.append(f"marena {rng.randrange(0, cnt + 2)} {rng.choice([4096, 65536, 100000, 1])} {','.join(f'{a}:{b}' for a, b in reqs)}")
+    impl, p1 = run_sharded(drv, lines, env=san_env())
+    model, p2 = run_sharded(runner, [l[1:] for l in lines])
+    for pr in p1:
+        rep.violation(f"buffer/arena driver died (rc={pr[1]}): {pr[2][-400:]}", {"case": pr[3]})
+    for pr in p2:
+        rep.tie_broken(f"model runner died (rc={pr[1]}): {pr[2][-300:]}", pr[3])
+    for li, a, b in zip(lines, impl, model):
+        rep.count(li)
+        if a != b:
+            rep.tie_broken(f"{'BufferModel' if li.startswith('mbuf') else 'ArenaModel'} differs from the C code: model {b} / code {a}", li)
+    rep.sample({"op": "model-tie", "case": lines[n + 3], "impl": impl[n + 3], "model": model[n + 3]})
+    # SiteModel: the extracted scenario semantics on the witnesses of the refuted theorems
+    want = {"site 2 CIC": "OK ok 1,3 1", "site 0 CIC": "OK ok 1,2,3 1", "site 1 U": "OK fault - 0", "site 2 CC;C": "OK err 1 1"}
+    out, rc, err = vlib.run_lines(runner, list(want))
+    for li, o in zip(want, out):
+        rep.count("model " + li)
+        if o != want[li]:
+            rep.tie_broken(f"extracted SiteModel disagrees with the Coq examples: {li} -> {o}, expected {want[li]}", li)
+
+
 def run(tier):
     rep = Report(PID, tier)
     rng = random.Random(vlib.SEED * 7919 + 19)
@@ -243,17 +337,20 @@ def run(tier):
                        "one evaluation = one (scenario, k); distinct by scenario text and k")
     try:
         drv = build_driver("h_alloc", extra=WRAP)
+        runner = vlib.build_runner("alloc")
     except vlib.BuildError as e:
         rep.tie_broken("harness does not build against the current tree: " + str(e)[:700])
         return rep.finish()
+    check_models(rep, tier, rng, drv, runner)
+    tab = site_table()
+    notok = [f"{r['file']}:{r['line']} {r['func']} -> {r['callee']} ({r['cls']})" for rows in tab.values() for r in rows if r["cls"] in ("Ignored", "Unchecked")]
+    rep.cov["site_table"] = {"rows": sum(len(v) for v in tab.values()), "not_checked": notok[:40]}
     scs, base, sites, lines, owner, out = run_all(rep, tier, rng, drv)
-    model = None
-    try:
-        import c19_model
-        model = c19_model.make(rep)
-    except ImportError:
-        pass
-    per_site, nrec = evaluate(rep, scs, base, sites, lines, owner, out, model)
+    tie, seen = make_site_tie(rep, tab)
+    per_site, nrec = evaluate(rep, scs, base, sites, lines, owner, out, tie)
+    rep.cov["site_table"]["functions_observed"] = len(seen)
+    rep.cov["site_table"]["functions_observed_without_row"] = sorted(f"{f}:{fn}" for (f, fn), st in seen.items() if st["rows"] == 0)
+    rep.cov["site_table"]["flagged_but_never_observed_bad"] = sorted(f"{f}:{fn}" for (f, fn), st in seen.items() if st["bad_rows"] and not st["bad_obs"])
     rep.cov["input_distribution"] = {"scenarios": len(scs), "requests_failed": nrec,
                                      "K_per_scenario": {short(s): int(base[s][0]["K"]) for s in base}}
     rep.cov["per_site"] = {k: v for k, v in sorted(per_site.items())}
